@@ -62,18 +62,19 @@ func (r *Result) Sample(x interface{}) {
 	}
 }
 
-const maxFindings = 40
+// every class (kind, op, key) keeps its first two findings; the total is bounded only to keep
+// the result file readable (a new class is never crowded out by frequent known ones)
+const maxPerClass, maxFindings = 2, 600
 
 func (r *Result) Add(f Finding) {
 	r.Dist["finding:"+f.Kind+":"+f.Op]++
-	// keep at most a few findings per (kind, op, key) class, smallest inputs first is the shrinker's job
 	n := 0
 	for _, g := range r.Findings {
 		if g.Kind == f.Kind && g.Op == f.Op && g.Key == f.Key {
 			n++
 		}
 	}
-	if n >= 3 || len(r.Findings) >= maxFindings {
+	if n >= maxPerClass || len(r.Findings) >= maxFindings {
 		return
 	}
 	r.Findings = append(r.Findings, f)
